@@ -2,6 +2,7 @@
 import itertools
 import os
 import re
+import struct
 from concurrent.futures import ThreadPoolExecutor
 
 import vlib
@@ -22,7 +23,13 @@ MANIFEST = {
             "only): steps of different streams commute; any interleaving of k streams' step lists "
             "(any k, any lengths) ends in the same global state as any other and as the serial "
             "execution, and each stream ends with what it computes alone; lazy store creation is "
-            "idempotent and local.  Tested, not proved: that the C++ confines its writes to the "
+            "idempotent and local.  Tested (bitwise, against a run in which every event has a "
+            "fresh stream of its own): per-event results for all event->stream assignments incl. "
+            "streams left idle (stream 0 / middle streams never step, their lazily created stores "
+            "are never allocated) and events following an event that a step limit stopped with no "
+            "track alive but primaries queued (then CoreState::reset); cross-stream totals of "
+            "SimpleCalo / ActionDiagnostic / StepDiagnostic against the same reference.  "
+            "Tested, not proved: that the C++ confines its writes to the "
             "stream's own state and that no shared datum is read and written without "
             "synchronisation.",
     "design_ref": "DESIGN.md §6 C07",
@@ -188,56 +195,118 @@ def run(ctx):
         ctx.coverage.update({"evaluations": 0, "distinct_nontrivial": 0})
         return LEVEL
 
-    jobs = []
+    _reported = {}
+    _violation = ctx.violation
+
+    def violation_capped(key, what, replay, found_input=True):
+        # one mutation typically breaks dozens of runs: keep two replays per key
+        _reported[key] = _reported.get(key, 0) + 1
+        if _reported[key] <= 2:
+            _violation(key, what, replay, found_input)
+    ctx.violation = violation_capped
+    jobs = []        # (case, kind, n_events, line)
     cases = []
     n_cases = 3 if quick else 8
+
+    def cutspec(case, n):
+        cs = [e for e in case["cut"] if e < n]
+        return (" cut=" + ",".join(map(str, cs))) if cs else ""
+
     for c in range(n_cases):
-        prob = "mock" if c % 2 == 0 else "simple"
-        slots = ctx.rng.choice([2, 4, 8, 16])
-        prims = ctx.rng.range(2, 10) if prob == "mock" else ctx.rng.range(1, 3)
+        # family 0: mock, few slots, more primaries than slots, some events are stopped by a step
+        #           limit where no track is alive but primaries are queued, then the state is reset
+        # family 1: simple (Compton)      family 2: mock, many slots, no cuts
+        famc = c % 3
+        prob = "simple" if famc == 1 else "mock"
+        if famc == 0:
+            slots = ctx.rng.choice([1, 2, 2, 3])
+            prims = ctx.rng.range(slots + 3, slots + 9)
+        else:
+            slots = ctx.rng.choice([2, 4, 8, 16])
+            prims = ctx.rng.range(2, 10) if prob == "mock" else ctx.rng.range(1, 3)
         seed = ctx.rng.below(10000)
         n_ev = 3 if prob == "mock" else 2
         base = "run prob=%s slots=%d prims=%d seed=%d" % (prob, slots, prims, seed)
-        case = {"base": base, "n_ev": n_ev, "ref": None, "runs": []}
+        cut = sorted({e for e in range(40) if famc == 0 and ctx.rng.chance(1, 2)} | ({0} if famc == 0 else set()))
+        case = {"base": base, "n_ev": n_ev, "cut": cut, "prob": prob}
         cases.append(case)
-        jobs.append((c, "ref", base + " streams=1 assign=%s mode=serial" % ",".join(["0"] * n_ev)))
-        # all assignments of the events to 2 streams (and 3 in the thorough tier)
+
+        def add(kind, n, k, asg, mode, extra=""):
+            jobs.append((c, kind, n, base + " streams=%d assign=%s mode=%s%s%s"
+                         % (k, ",".join(map(str, asg)), mode, cutspec(case, n), extra)))
+
+        def fresh(n):
+            # REFERENCE: every event on its own, never used stream (and nothing else on it)
+            add("fresh", n, n, list(range(n)), "serial")
+            if prob == "mock":
+                add("fresh", n, n, list(range(n)), "serial", " calo=1")
+
+        fresh(n_ev)
+        add("one", n_ev, 1, [0] * n_ev, "serial")          # all events after each other on ONE stream
+        # all assignments of the events to 2 streams (and 3 in the thorough tier); these include
+        # assignments that leave stream 0 or a middle stream without any event
         for k in ([2] if quick else [2, 3]):
             for asg in itertools.product(range(k), repeat=n_ev):
-                a = ",".join(map(str, asg))
                 reps = 1 if quick else 2
                 for r_ in range(reps):
                     sched = ctx.rng.below(1 << 30) if r_ or ctx.rng.chance(1, 2) else 0
-                    jobs.append((c, "thr", base + " streams=%d assign=%s mode=threads sched=%d"
-                                 % (k, a, sched)))
-        # many streams, many events
+                    add("thr", n_ev, k, asg, "threads", " sched=%d" % sched)
+                if prob == "mock" and (quick or ctx.rng.chance(1, 2)):
+                    add("thr", n_ev, k, asg, "threads", " calo=1")
+        # many streams, many events; then the same with IDLE streams: stream 0 and at least one
+        # middle stream get no event and never take a step (their lazily created per-stream
+        # diagnostic / calorimeter states are never allocated)
         for k in ([4, 16] if quick else [4, 8, 16, 16]):
             n = ctx.rng.range(k, 2 * k)
-            asg = [ctx.rng.below(k) for _ in range(n)]
-            a = ",".join(map(str, asg))
-            jobs.append((c, "refn", base + " streams=1 assign=%s mode=serial" % ",".join(["0"] * n)))
-            jobs.append((c, "ser", base + " streams=%d assign=%s mode=serial" % (k, a)))
-            jobs.append((c, "thr", base + " streams=%d assign=%s mode=threads sched=%d"
-                         % (k, a, ctx.rng.below(1 << 30))))
-            if prob == "mock":
-                jobs.append((c, "ser", base + " streams=%d assign=%s mode=serial calo=1" % (k, a)))
-                jobs.append((c, "thr", base + " streams=%d assign=%s mode=threads calo=1" % (k, a)))
+            fresh(n)
+            add("one", n, 1, [0] * n, "serial")
+            for idle in (False, True):
+                if idle:
+                    dead = {0, ctx.rng.range(1, k - 2)} | {s_ for s_ in range(1, k - 1) if ctx.rng.chance(1, 4)}
+                    live = [s_ for s_ in range(k) if s_ not in dead]
+                else:
+                    live = list(range(k))
+                asg = [ctx.rng.choice(live) for _ in range(n)]
+                add("ser", n, k, asg, "serial")
+                add("thr", n, k, asg, "threads", " sched=%d" % ctx.rng.below(1 << 30))
+                if prob == "mock":
+                    add("ser", n, k, asg, "serial", " calo=1")
+                    add("thr", n, k, asg, "threads", " calo=1")
     with ThreadPoolExecutor(max_workers=4) as ex:
-        outs = list(ex.map(lambda j: run_one(exe, j[2]), jobs))
+        outs = list(ex.map(lambda j: run_one(exe, j[3]), jobs))
 
-    # per-event results: every run against the single-stream serial run of the same events
+    def totals_of(o):
+        kv = dict(w.split("=", 1) for w in (o["totals"] or "").split()[1:])
+        calo = None if kv.get("calo", "-") == "-" else \
+            [struct.unpack(">d", bytes.fromhex(x))[0] for x in kv["calo"].strip(",").split(",")]
+        return kv.get("adiag"), kv.get("sdiag"), calo
+
+    def idle_streams(line):
+        k = int(re.search(r"streams=(\d+)", line).group(1))
+        used = {int(x) for x in re.search(r"assign=([\d,]+)", line).group(1).split(",")}
+        return sorted(set(range(k)) - used)
+
+    # per-event results and cross-stream totals: every run against the run in which each event
+    # has a fresh stream of its own
     n_cmp = n_bad = 0
     distinct = set()
+    cov = {"runs_with_idle_stream_0": 0, "runs_with_idle_middle_stream": 0,
+           "totals_compared_with_idle_streams": 0, "cut_events": 0,
+           "cuts_with_alive0_queued": 0, "events_following_a_cut_on_their_stream": 0}
     for c, case in enumerate(cases):
-        refs = [o for (cc, kind, _), o in zip(jobs, outs) if cc == c and kind in ("ref", "refn")]
-        ref_ev = {}
-        for r in refs:
-            for e, v in r["events"].items():
-                ref_ev.setdefault(e, v)
-                if ref_ev[e] != v:
-                    ctx.violation("serial-run-not-deterministic", "two single-stream serial runs of "
-                                  f"event {e} differ", {"ops": [r["line"]]})
-        for (cc, kind, line), o in zip(jobs, outs):
+        ref_ev, ref_tot, ref_line = {}, {}, {}
+        for (cc, kind, n, line), o in zip(jobs, outs):
+            if cc != c or kind != "fresh" or not o["ok"]:
+                continue
+            calo = "calo=1" in line
+            ref_tot[(n, calo)] = totals_of(o)
+            ref_line[(n, calo)] = line
+            if not calo:
+                for e, v in o["events"].items():
+                    if ref_ev.setdefault(e, v) != v:
+                        ctx.violation("fresh-run-not-deterministic", "two fresh-stream runs of "
+                                      f"event {e} differ", {"ops": [line]})
+        for (cc, kind, n, line), o in zip(jobs, outs):
             if cc != c:
                 continue
             if not o["ok"] or any("FAILED" in v for v in o["events"].values()):
@@ -246,26 +315,73 @@ def run(ctx):
                               + " ".join(o["raw"][-3:])[:300], {"ops": [line]})
                 continue
             distinct.add(line)
-            if kind in ("ref", "refn"):
+            if kind == "fresh":
                 continue
             calo = "calo=1" in line
+            asg = [int(x) for x in re.search(r"assign=([\d,]+)", line).group(1).split(",")]
+            cutset = set(case["cut"])
             for e, v in o["events"].items():
                 n_cmp += 1
                 want = ref_ev.get(e)
+                if " cut=1" in v and not calo:
+                    cov["cut_events"] += 1
+                    if int(v.split(" q=")[1]) > 0:
+                        cov["cuts_with_alive0_queued"] += 1
+                if any(asg[p_] == asg[e] and p_ in cutset for p_ in range(e)) and not calo:
+                    cov["events_following_a_cut_on_their_stream"] += 1
                 if calo:      # no recorder attached: compare the StepperResult sequence only
                     v = v.split("res=")[1]
                     want = want.split("res=")[1] if want else None
                 if want is not None and v != want:
                     n_bad += 1
-                    ctx.violation("event-differs-from-serial:" + kind,
-                                  f"event {e} transported on a stream of `{line}` differs from the "
-                                  f"single-stream serial run: {v} vs {want}",
+                    prev = [p_ for p_ in range(e) if asg[p_] == asg[e]]
+                    ctx.violation("event-differs-from-fresh-stream:" + kind,
+                                  f"event {e} transported on stream {asg[e]} of `{line}` (after events "
+                                  f"{prev} on that stream, cut events {sorted(cutset & set(prev))}) differs "
+                                  f"from the same event on a fresh stream: {v} vs {want}",
                                   {"harness": "harness/streams.cc",
-                                   "ops_A": [refs[0]["line"]], "ops_B": [line], "event": e,
-                                   "contradicts": "C07 any_interleaving_equals_serial"})
-        # totals: threads vs serial execution of the same assignment
+                                   "ops_A": [ref_line.get((n, False), "")], "ops_B": [line], "event": e,
+                                   "contradicts": "C07 any_interleaving_equals_serial / C06 "
+                                                  "event_result_is_function_of"})
+            # cross-stream totals (accumulate_over_streams) against the reference totals
+            want_t = ref_tot.get((n, calo))
+            if want_t is None:
+                continue
+            got_t = totals_of(o)
+            idle = idle_streams(line)
+            k_ = int(re.search(r"streams=(\d+)", line).group(1))
+            if 0 in idle:
+                cov["runs_with_idle_stream_0"] += 1
+            if any(0 < s_ < k_ - 1 for s_ in idle):
+                cov["runs_with_idle_middle_stream"] += 1
+            if idle:
+                cov["totals_compared_with_idle_streams"] += 1
+            n_cmp += 1
+            # action diagnostic is skipped altogether on one-slot states (known C17 finding):
+            # compare it only between runs with the same slot count — which all of a case are
+            problems = []
+            if got_t[0] != want_t[0]:
+                problems.append(f"ActionDiagnostic totals hash {got_t[0]} vs {want_t[0]}")
+            if got_t[1] != want_t[1]:
+                problems.append(f"StepDiagnostic totals hash {got_t[1]} vs {want_t[1]}")
+            if want_t[2] is not None and got_t[2] is not None:
+                for d_, (x, y) in enumerate(zip(got_t[2], want_t[2])):
+                    # the floating-point grouping differs with the assignment: relative 1e-9
+                    if abs(x - y) > 1e-9 * max(1.0, abs(y)):
+                        problems.append(f"SimpleCalo detector {d_} total {x!r} vs {y!r}")
+            if problems:
+                n_bad += 1
+                ctx.violation("totals-differ-from-fresh-streams" + (":idle-streams" if idle else ""),
+                              "cross-stream totals differ from the run in which every event has its "
+                              f"own stream ({'; '.join(problems[:4])}); streams without any event: "
+                              f"{idle}",
+                              {"harness": "harness/streams.cc", "ops_A": [ref_line[(n, calo)]],
+                               "ops_B": [line], "idle_streams": idle,
+                               "contradicts": "C07: per-stream stores are independent; totals = sum "
+                                              "over all allocated streams (lazy_create_idempotent)"})
+        # totals: threads vs serial execution of the same assignment (bitwise, incl. calorimeter)
         by_cfg = {}
-        for (cc, kind, line), o in zip(jobs, outs):
+        for (cc, kind, n, line), o in zip(jobs, outs):
             if cc == c and kind in ("ser", "thr") and o["ok"]:
                 key = re.sub(r" sched=\d+", "", line).replace("mode=threads", "").replace("mode=serial", "")
                 by_cfg.setdefault(key, {})[kind] = o
@@ -280,6 +396,18 @@ def run(ctx):
                                   f"{d['ser']['totals']}",
                                   {"harness": "harness/streams.cc", "ops_A": [d["ser"]["line"]],
                                    "ops_B": [d["thr"]["line"]]})
+    ctx.violation = _violation
+    # the situations the comparisons are about must have occurred
+    if not ctx.violations:
+        for key_, what in (("runs_with_idle_stream_0", "no run left stream 0 without events"),
+                           ("runs_with_idle_middle_stream", "no run left a middle stream without events"),
+                           ("cuts_with_alive0_queued", "no event was cut where no track was alive "
+                                                       "while primaries were queued"),
+                           ("events_following_a_cut_on_their_stream", "no event followed a cut event "
+                                                                      "on the same stream")):
+            if cov[key_] == 0:
+                ctx.violation("coverage:" + key_, what + ": the corresponding comparison was not "
+                              "exercised", {"coverage": cov}, found_input=False)
 
     # ---- ThreadSanitizer (thorough tier): every configuration under >= 20 random schedules
     tsan = {"ran": False}
@@ -348,8 +476,9 @@ def run(ctx):
                 "threaded or serial); distinct = distinct completed run lines; every run "
                 "transports >= 2 events",
         "comparisons": n_cmp, "mismatches": n_bad, "cases": [c["base"] for c in cases],
-        "thread_counts": sorted({int(re.search(r"streams=(\d+)", j[2]).group(1)) for j in jobs}),
-        "tsan": tsan, "samples": [jobs[1][2], jobs[-1][2]],
+        "situations": cov, "violations_by_key": dict(_reported),
+        "thread_counts": sorted({int(re.search(r"streams=(\d+)", j[3]).group(1)) for j in jobs}),
+        "tsan": tsan, "samples": [jobs[1][3], jobs[-1][3]],
         "correspondence_broken": broken,
     })
     return LEVEL
@@ -374,7 +503,19 @@ def replay(ctx, data):
     b = run_one(exe, r["ops_B"][0])
     print(a["events"], a["totals"])
     print(b["events"], b["totals"])
-    same = all(a["events"].get(e) == v for e, v in b["events"].items()) if "event" in r \
-        else a["totals"] == b["totals"]
+    if "event" in r:
+        e = r["event"]
+        same = a["events"].get(e) == b["events"].get(e)
+    elif data.get("key", "").startswith("totals-differ-from-fresh-streams"):
+        def tot(o):
+            kv = dict(w.split("=", 1) for w in (o["totals"] or "").split()[1:])
+            calo = None if kv.get("calo", "-") == "-" else \
+                [struct.unpack(">d", bytes.fromhex(x))[0] for x in kv["calo"].strip(",").split(",")]
+            return kv.get("adiag"), kv.get("sdiag"), calo
+        ta, tb = tot(a), tot(b)
+        same = ta[0] == tb[0] and ta[1] == tb[1] and (
+            ta[2] is None or all(abs(x - y) <= 1e-9 * max(1.0, abs(y)) for x, y in zip(tb[2], ta[2])))
+    else:
+        same = a["totals"] == b["totals"]
     print("agree" if same else "DISAGREE (violation reproduced)")
     return 0 if same else 1
